@@ -125,6 +125,18 @@ impl Logger {
         } else {
             "within"
         };
+        if self.idx % 9973 == 5 {
+            rep.sample(5, || {
+                let mut o = J::obj();
+                o.set("call_index", J::i(self.idx));
+                o.set("workload", J::s(wl));
+                o.set("line", J::bytes(&line[..line.len().min(120)]));
+                o.set("outcome_this_build", J::s(kind));
+                o.set("shadow_expectation_for_noalloc", J::s(skind));
+                o.set("capacity_class", J::s(cls));
+                o
+            });
+        }
         rep.class(format!("{}|{}|decode={}|{}", wl, kind, decode as u8, cls));
         rep.count(&format!("line:{}", cls));
         let facts = format!(
